@@ -20,6 +20,68 @@ from sa.report import Run, analysis_error  # noqa: E402
 from sa.srcmodel import AnalysisError, Model  # noqa: E402
 
 
+def _variant(job):
+    """Apply one seeded patch to a scratch copy of the working tree and run the check on it."""
+    import shutil
+    import subprocess
+    import tempfile
+    prop, repo, seed_dir = job
+    scratch = tempfile.mkdtemp(prefix="sa-selftest-")
+    try:
+        shutil.copytree(os.path.join(repo, "src"), os.path.join(scratch, "src"))
+        p = subprocess.run(["git", "apply", os.path.join(seed_dir, "patch.diff")], cwd=scratch, capture_output=True, text=True)
+        if p.returncode != 0:
+            return os.path.basename(seed_dir), "patch does not apply to the current tree", None
+        env = dict(os.environ, VERIF_EVIDENCE_DIR=os.path.join(scratch, "_ev"), VERIF_NO_SELFTEST="1", PYTHONHASHSEED="0")
+        q = subprocess.run([sys.executable, os.path.abspath(__file__), prop, "--tier", "quick", "--repo", scratch], capture_output=True, text=True, env=env, cwd=os.path.dirname(HERE))
+        rules = sorted({l.split(":")[0].replace("  rule ", "") for l in q.stdout.splitlines() if l.startswith("  rule ")})
+        return os.path.basename(seed_dir), q.returncode, rules
+    finally:
+        shutil.rmtree(scratch, ignore_errors=True)
+
+
+def selftest(prop: str, repo: str, run: Run) -> None:
+    """Thorough tier: the checker is exercised on every seeded variant recorded for this property (breaking
+    variants it is expected to report, behaviour-preserving variants it must stay silent on), each applied to a
+    scratch copy of the CURRENT working tree. The result measures the checker, not the property: it is written
+    to the evidence and never changes the verdict on the tree."""
+    import json
+    from concurrent.futures import ThreadPoolExecutor
+    seeded = os.path.join(os.path.dirname(HERE), "seeded")
+    jobs = []
+    expect = {}
+    if os.path.isdir(seeded):
+        for d in sorted(os.listdir(seeded)):
+            mp = os.path.join(seeded, d, "meta.json")
+            if not os.path.exists(mp) or not os.path.exists(os.path.join(seeded, d, "patch.diff")):
+                continue
+            meta = json.load(open(mp))
+            if d.startswith("benign") or d.startswith("B-"):
+                expect[d] = "silent"
+                jobs.append((prop, repo, os.path.join(seeded, d)))
+            elif prop in meta.get("detected_by", {}):
+                expect[d] = "report"
+                jobs.append((prop, repo, os.path.join(seeded, d)))
+    with ThreadPoolExecutor(max_workers=12) as ex:
+        results = list(ex.map(_variant, jobs))
+    ok = bad = skipped = 0
+    rows = []
+    for name, rc, rules in results:
+        if rules is None:
+            skipped += 1
+            rows.append({"variant": name, "result": rc})
+            continue
+        want = expect[name]
+        good = (rc == 1) if want == "report" else (rc == 0)
+        ok += good
+        bad += (not good)
+        rows.append({"variant": name, "expected": want, "exit": rc, "rules": rules[:4], "as_expected": good})
+    run.coverage["checker_selftest"] = {"variants": len(jobs), "as_expected": ok, "unexpected": bad, "skipped": skipped, "rows": rows}
+    if bad:
+        run.note(f"checker self-test: {bad} variant(s) did not behave as recorded: " + ", ".join(r["variant"] for r in rows if r.get("as_expected") is False))
+    print(f"[{prop}] checker self-test on seeded variants: {ok} as expected, {bad} unexpected, {skipped} skipped")
+
+
 def main() -> int:
     if os.environ.get("PYTHONHASHSEED") != "0":
         # deterministic set/dict iteration order: the verdict never depends on it, the report order does
@@ -40,6 +102,8 @@ def main() -> int:
         model = Model(args.repo)
         run = Run(prop, args.tier)
         mod.check(model, run)
+        if args.tier == "thorough" and not os.environ.get("VERIF_NO_SELFTEST"):
+            selftest(prop, args.repo, run)
         return run.finish(model)
     except AnalysisError as e:
         return analysis_error(prop, args.tier, str(e))
